@@ -77,6 +77,7 @@ def call_shape(chk):
     seen = set()
     fns = [K, K.Inner, func, dict, sorted, collections.OrderedDict, Carrier]
     nprints = 0
+    bound = []
     for rep in range(400 if q else 8000):
         fn = rng.choice(fns)
         na = rng.choice([0, 1, 1, 2, 3])
@@ -92,6 +93,8 @@ def call_shape(chk):
             i = rng.randrange(len(args))
             cargs[i] = P.comment(args[i], 'note')
         v = Carrier(fn, cargs, kwargs, alt, kwform)
+        if Ellipsis not in args and all(x is not Ellipsis for _, x in kwargs):
+            bound.append(Carrier(fn, cargs, kwargs, alt, 'pairs'))
         for w in rng.sample([1, 10, 30, 79, 200], 2):
             nprints += 1
             # the settings every argument must be printed with, too ("exactly as it would be on its own")
@@ -151,6 +154,10 @@ def call_shape(chk):
             d = meta[c['id']]
             chk.violation('C17.call-shape', 'the output is not the call %s(args in order, keywords in order), each argument '
                           'printed as on its own: %r' % (d['callable'], d), d)
+    # spec -> code: Printers!CallAlt / BuildFncall predict the exact text of the call (DRIFT only)
+    from checks import values_checks as VC
+    VC.CALL_TYPES[Carrier] = lambda c: (expected_name(c.fn), c.args, list(c.kwargs))
+    VC.printers_binding(chk, bound, name='calls', per_value=2)
     chk.cov['evaluations'] += nprints
     chk.cov['traces_validated_against_impl'] += len(cases)
     chk.stage('call-shape', prints=nprints, distinct=len(cases), rejected=nrej, states=st['distinct'])
